@@ -11,7 +11,7 @@ import pyref
 FAMILY = "cpc"
 CORR = "Cpc"               # Coq module DS.Corr.Cpc
 FAMNUM = 7
-ORACLES = {"prop_ok": 0, "union_ok": 1, "extremes_ok": 2}
+ORACLES = {"prop_ok": 0, "union_ok": 1, "extremes_ok": 2, "layout_ok": 3}
 GEN_MODULES = [("GenCpc",
                 ["cpc/mod.rs", "cpc/sketch.rs", "cpc/pair_table.rs", "cpc/kxp_byte_lookup.rs", "common/inv_pow2_table.rs"],
                 ["MIN_LG_K", "MAX_LG_K", "KXP_BYTE_TABLE", "INVERSE_POWERS_OF_2",
@@ -36,7 +36,7 @@ GEN_MODULES = [("GenCpc",
                 {"cpc/union.rs": ["to_sketch", "reduce_k", "or_window_into_matrix", "or_table_into_matrix",
                                   "or_matrix_into_matrix", "walk_table_updating_sketch"]})]
 OPNAMES = {0: "new", 1: "update", 2: "row_col", 3: "dump", 4: "validate", 5: "matrix", 6: "flavor_of", 7: "offset_of",
-           8: "estimate", 9: "phase_of", 30: "big", 10: "sk_new", 11: "sk_rc", 12: "sk_item", 13: "sk_dump", 14: "sk_validate", 15: "sk_matrix",
+           8: "estimate", 9: "phase_of", 18: "roundtrip", 19: "ser", 17: "sk_ser", 30: "big", 10: "sk_new", 11: "sk_rc", 12: "sk_item", 13: "sk_dump", 14: "sk_validate", 15: "sk_matrix",
            16: "sk_roundtrip", 20: "un_new", 21: "un_update", 22: "un_state", 23: "un_result"}
 U32MAX = 2**32 - 1
 
@@ -111,6 +111,7 @@ class Builder:
         # every update walks the table and half of the window
         self.cost = 0
         self.cost_budget = 30_000_000
+        self.codec = False          # focus="codec": serialize (op 19) and round trip (op 18) at the observation points
 
     def charge(self, rc):
         c, n = self.sim.surprises_after(rc)
@@ -127,6 +128,13 @@ class Builder:
             if full:
                 self.ops.append((5, []))
         self.ops.append((8, []))
+        if self.codec:
+            self.ops.append((19, [pyref.seed_hash(self.seed)]))
+            if self.rng.random() < 0.6:
+                self.ops.append((18, []))
+                self.ops.append((3, []))
+                if self.lgk <= 13:
+                    self.ops.append((4, []))
 
     def after(self):
         off = self.sim.offset()
@@ -227,12 +235,13 @@ def probes(lgk):
     return sorted(c for c in cs if c < 2**32)
 
 
-def gen_case(rng, cid, tier, kind, lgk):
+def gen_case(rng, cid, tier, kind, lgk, codec=False):
     seed = rng.choice([9001, 9001, 1, 12345, rng.getrandbits(64)])
     if pyref.seed_hash(seed) == 0:
         seed = 9001
     k = 1 << lgk
     b = Builder(rng, lgk, seed, dump_budget=(70 if lgk <= 6 else 24 if lgk <= 9 else 6))
+    b.codec = codec
     if tier != "quick":
         b.cost_budget *= 5
     if kind == "colfill":
@@ -251,6 +260,8 @@ def gen_case(rng, cid, tier, kind, lgk):
         base = rng.getrandbits(62)
         for i in range(n):
             b.item(base + i)
+    elif kind == "fullcols":            # complete columns only: pinned / sliding sketches WITHOUT surprising values
+        stream_colfill(b, rng, 57 if lgk <= 6 else 12, holes=0, far_ones=0)
     elif kind == "rtl":
         stream_right_to_left(b, rng, rng.choice([1, 3, 12, 24]))
         stream_random(b, rng, k, boost=0.2)
@@ -272,7 +283,7 @@ def gen_case(rng, cid, tier, kind, lgk):
         for c in rng.sample(probes(l), 12):
             ops.append((6, [l, c]))
             ops.append((7, [l, c]))
-    return Case(cid, [lgk, seed], ops, tag="cpc-%s-lg%d" % (kind, lgk))
+    return Case(cid, [lgk, seed], ops, tag="cpc-%s%s-lg%d" % ("codec-" if codec else "", kind, lgk))
 
 
 def plan(tier):
@@ -375,6 +386,8 @@ class UBuilder:
         self.ops.append((14, [slot]))
         if full:
             self.ops.append((15, [slot]))
+        if self.rng.random() < 0.5:
+            self.ops.append((17, [slot, pyref.seed_hash(self.seed)]))   # image checked by the layout decoder (C12)
 
 
 def union_matrix(lg, mats):
@@ -523,7 +536,25 @@ def gen_extremes(rng, tier, n):
     return cases
 
 
+def gen_codec(rng, tier, n):
+    """C11 / C12: serialize, decode with the independent layout decoder, round trip and keep updating"""
+    p = []
+    for lgk in (4, 5, 6, 7):
+        p += [("fullcols", lgk), ("colfill", lgk), ("hashed", lgk), ("random", lgk), ("rtl", lgk)]
+    for lgk in (8, 9, 10, 11, 12):
+        p += [("hashed", lgk), ("colfill", lgk), ("random", lgk)]
+    p += [("fullcols", 8), ("hashed_long", 4), ("hashed_long", 6), ("sparse_big", 21)]
+    if tier != "quick":
+        p = p * 5 + [("hashed", 13), ("hashed", 14), ("hashed", 16), ("sparse_big", 26)]
+    if n is not None:
+        rng.shuffle(p)
+        p = p[:n]
+    return [gen_case(rng, i, tier, kind, lgk, codec=True) for i, (kind, lgk) in enumerate(p)]
+
+
 def gen(rng, tier, n=None, focus=None):
+    if focus == "codec":
+        return gen_codec(rng, tier, n)
     if focus == "union":
         return gen_union(rng, tier, n)
     if focus == "extremes":
